@@ -373,8 +373,13 @@ func genTimeline(t *rapid.T, label string) *tnode {
 
 func genAS(t *rapid.T, id int) *tnode {
 	as := &tnode{name: "AdaptationSet", attrs: [][2]string{{"id", strconv.Itoa(id)}, {"contentType", rapid.SampledFrom([]string{"video", "audio", "text"}).Draw(t, "ct")}}}
-	if rapid.Bool().Draw(t, "role") {
+	switch rapid.IntRange(0, 3).Draw(t, "role") {
+	case 1:
 		as.kids = append(as.kids, &tnode{name: "Role", attrs: [][2]string{{"schemeIdUri", "urn:mpeg:dash:role:2011"}, {"value", "main"}}})
+	case 2:
+		// two descriptors of one scheme told apart by their ids (DescriptorType@id): the id is what addresses them
+		as.kids = append(as.kids, &tnode{name: "Role", attrs: [][2]string{{"schemeIdUri", "urn:mpeg:dash:role:2011"}, {"value", "main"}, {"id", "ro" + strconv.Itoa(id) + "a"}}},
+			&tnode{name: "Role", attrs: [][2]string{{"schemeIdUri", "urn:mpeg:dash:role:2011"}, {"value", "alternate"}, {"id", "ro" + strconv.Itoa(id) + "b"}}})
 	}
 	st := &tnode{name: "SegmentTemplate", attrs: [][2]string{{"media", "$RepresentationID$/$Time$.m4s"}, {"timescale", "90000"}}}
 	if rapid.Bool().Draw(t, "sn") {
@@ -432,7 +437,7 @@ func genTree(t *rapid.T) TreeCase {
 	}
 	for e := 0; e < nEd; e++ {
 		ps := periods()
-		switch rapid.SampledFrom([]string{"s-append", "s-append", "s-drop-first", "s-drop-first", "s-repeat", "s-insert-mid", "attr-change", "attr-add", "attr-remove", "period-append", "period-drop-first", "as-add", "rep-add", "rep-remove", "leaf-text", "noid-remove", "noid-add"}).Draw(t, "edit") {
+		switch rapid.SampledFrom([]string{"s-append", "s-append", "s-drop-first", "s-drop-first", "s-repeat", "s-insert-mid", "attr-change", "attr-add", "attr-remove", "period-append", "period-drop-first", "as-add", "rep-add", "rep-remove", "leaf-text", "noid-remove", "noid-add", "role-change", "role-change"}).Draw(t, "edit") {
 		case "s-append", "s-drop-first", "s-repeat", "s-insert-mid":
 			if len(ps) == 0 {
 				continue
@@ -585,6 +590,34 @@ func genTree(t *rapid.T) TreeCase {
 					as.kids = append(as.kids, &tnode{name: "Representation", attrs: [][2]string{{"id", fmt.Sprintf("x%d_%d", e, nrep)}, {"bandwidth", "5"}}})
 				}
 				break
+			}
+		case "role-change":
+			// the second of two same-scheme descriptors changes its value or disappears
+			var roles []*tnode
+			var parents []*tnode
+			var walkR func(n *tnode)
+			walkR = func(n *tnode) {
+				for _, k := range n.kids {
+					if k.name == "Role" && len(k.attrs) == 3 && strings.HasSuffix(k.attrs[2][1], "b") {
+						roles = append(roles, k)
+						parents = append(parents, n)
+					}
+					walkR(k)
+				}
+			}
+			walkR(nw)
+			if len(roles) > 0 {
+				i := rapid.IntRange(0, len(roles)-1).Draw(t, "whichrole")
+				if rapid.Bool().Draw(t, "role-remove") {
+					for j, k := range parents[i].kids {
+						if k == roles[i] {
+							parents[i].kids = append(parents[i].kids[:j:j], parents[i].kids[j+1:]...)
+							break
+						}
+					}
+				} else {
+					roles[i].attrs[1][1] = "commentary" + strconv.Itoa(e)
+				}
 			}
 		case "noid-remove":
 			// an element without id (addressed by position among its same-named siblings) disappears, e.g. the PatchLocation
